@@ -39,12 +39,14 @@ class BasePickerModel(ABC):
         # if depth is too large
         if isinstance(depth, (int, np.integer)):
             depth = (depth, depth, depth)
+        # NOTE: depth must be a tuple. A list is interpreted as the depth of each array.
+        depth = tuple(min(s, d) for s, d in zip(image.shape, depth))
         task: da.Array = image.map_overlap(
             self._pick_in_chunk_wrapped,
             **params,
             **kwargs,
             # dask parameters
-            depth=[min(s, d) for s, d in zip(image.shape, depth)],
+            depth=depth,
             trim=False,
             boundary=boundary,
             dtype=object,
